@@ -101,4 +101,59 @@ def modClassical [Add K] [Mul K] [Div K] [Neg K] [Zero K] [One K] [LT K] [Decida
   let allParts := (A.zip S).zipIdx.map fun (r, i) => parts states i r.1 r.2
   (List.range A.length).map fun i => modClassicalRow tiny states allParts i
 
+/-! ### extended+i interpolation (`interpolation.cpp:10-165`), one unknown per node
+
+`Ĉ_i` = strong coarse neighbours of `i` and the strong coarse neighbours of its strong fine neighbours, in the order
+the C++ inserts them. A non-strong entry `a_ij` with `j ∈ Ĉ_i` belongs to the weight of `j`; every other non-strong
+entry is lumped into the diagonal. A strong fine neighbour `k` distributes `a_ik` over `Ĉ_i ∪ {i}` in proportion to
+the entries of row `k` whose sign is opposite to `a_kk`. -/
+
+def addAt [Add K] (l : List (Nat × K)) (c : Nat) (v : K) : List (Nat × K) :=
+  l.map fun q => if q.1 == c then (q.1, q.2 + v) else q
+
+/-- the interpolation set of row `i` with the initial numerators: `a_ij` for a strong coarse `j`, `0` for a point
+    reached at distance two only -/
+def cHat [Zero K] (states : List Int) (S : List (List (Nat × K))) (i : Nat) : List (Nat × K) :=
+  (offDiag i (S.getD i [])).foldl (fun acc e =>
+    if isC states e.1 then
+      (if acc.any (·.1 == e.1) then acc.map (fun q => if q.1 == e.1 then (q.1, e.2) else q) else acc ++ [(e.1, e.2)])
+    else if isF states e.1 then
+      (offDiag e.1 (S.getD e.1 [])).foldl (fun acc k => if isC states k.1 && !(acc.any (·.1 == k.1)) then acc ++ [(k.1, 0)] else acc) acc
+    else acc) []
+
+/-- numerators and lumped diagonal after the pass over row `i` of `A` -/
+def extPass1 [Add K] [Zero K] (states : List Int) (A S : List (List (Nat × K))) (i : Nat) : List (Nat × K) × K :=
+  let arow := A.getD i []
+  let strongCols := (offDiag i (S.getD i [])).map (·.1)
+  let chat := cHat states S i
+  (arow.drop 1).foldl (fun pw e =>
+    if strongCols.contains e.1 then pw
+    else if isC states e.1 && chat.any (·.1 == e.1) then (addAt pw.1 e.1 e.2, pw.2)
+    else (pw.1, pw.2 + e.2)) (chat, diagVal arow)
+
+/-- contribution of one strong fine neighbour `k` (entry `(k, a_ik)` of the strength row) -/
+def extFine [Add K] [Mul K] [Div K] [Zero K] [LT K] [DecidableLT K] (tiny : K → Bool) (states : List Int)
+    (A : List (List (Nat × K))) (i : Nat) (inHat : Nat → Bool) (pw : List (Nat × K) × K) (e : Nat × K) : List (Nat × K) × K :=
+  let krow := A.getD e.1 []
+  let neg := decide (diagVal krow < 0)
+  let cs := krow.foldl (fun s q => if (inHat q.1 || q.1 == i) && opp neg q.2 then s + q.2 else s) 0
+  let m := if tiny cs then cs else e.2 / cs
+  let w0 := if tiny cs then pw.2 + e.2 else pw.2
+  (krow.drop 1).foldl (fun pw q =>
+    if isC states q.1 then (if opp neg q.2 && inHat q.1 then (addAt pw.1 q.1 (m * q.2), pw.2) else pw)
+    else if q.1 == i then (pw.1, pw.2 + m * q.2) else pw) (pw.1, w0)
+
+def extendedRow [Add K] [Mul K] [Div K] [Neg K] [Zero K] [One K] [LT K] [DecidableLT K]
+    (tiny : K → Bool) (states : List Int) (A S : List (List (Nat × K))) (i : Nat) : List (Nat × K) :=
+  if isC states i then [(colToNew states i, 1)] else
+  let chat := cHat states S i
+  let inHat (c : Nat) : Bool := chat.any (·.1 == c)
+  let pw1 := extPass1 states A S i
+  let pw2 := ((offDiag i (S.getD i [])).filter fun e => isF states e.1).foldl (extFine tiny states A i inHat) pw1
+  pw2.1.map fun e => (colToNew states e.1, e.2 / (-pw2.2))
+
+def extended [Add K] [Mul K] [Div K] [Neg K] [Zero K] [One K] [LT K] [DecidableLT K]
+    (tiny : K → Bool) (states : List Int) (A S : List (List (Nat × K))) : List (List (Nat × K)) :=
+  (List.range A.length).map fun i => extendedRow tiny states A S i
+
 end Raptor.Interp
